@@ -9,6 +9,7 @@ TRUSTED_BASE = [
 ]
 
 BRANCH_NAMES = {
+    'observe': ['first_round_empty', 'no_votes', 'votes', 'error', 'panic'],
     'reportsflow': ['no_reports', 'reports', 'error', 'panic'],
     'mercagg': ['timestamp', 'price_ok', 'price_err', 'fee_ok', 'fee_err', 'maxfints_ok', 'maxfints_err', 'maxfinblock_ok',
                 'maxfinblock_err', 'status_ok', 'status_err', 'latestblock_ok', 'latestblock_err'],
@@ -326,7 +327,7 @@ PROPS['C17'] = dict(
 BRANCH_NAMES['nopanic'] = ['validate', 'outcome', 'reports', 'observation', 'mercury', 'decoders', 'evm-nil-values', 'panics']
 PROPS['C11'] = dict(
     level='proof',
-    projections=[dict(name='reportsflow', spec_index=1, n_quick=400, n_thorough=10000), dict(name='nopanic', spec_index=1, n_quick=3000, n_thorough=100000),
+    projections=[dict(name='reportsflow', spec_index=1, n_quick=400, n_thorough=10000), dict(name='observe', spec_index=1, n_quick=300, n_thorough=8000), dict(name='nopanic', spec_index=1, n_quick=3000, n_thorough=100000),
                  dict(name='evmcodec', spec_index=3, strict_index=4, n_quick=1500, n_thorough=40000)],
     rule="nopanic: under recover(): ValidateObservation, Outcome (observations first filtered by the real ValidateObservation; previous outcome "
          "random / structure-aware mutated / valid with missing aggregates; retirement report with and without channels), Reports (telemetry "
@@ -404,7 +405,7 @@ PROPS['C19'] = dict(
 BRANCH_NAMES['converge'] = ['histories', 'rounds', 'histories-ending-at-the-target']
 PROPS['C14'] = dict(
     level='proof',
-    projections=[dict(name='converge', spec_index=1, strict_index=2, n_quick=40, n_thorough=600, timeout=1500),
+    projections=[dict(name='observe', spec_index=1, n_quick=300, n_thorough=8000), dict(name='converge', spec_index=1, strict_index=2, n_quick=40, n_thorough=600, timeout=1500),
                  dict(name='history', spec_index=6, **HIST_N)],
     rule="converge: chained Observation -> ValidateObservation -> Outcome rounds of the real plugin (bound + 1..3 rounds) from a starting channel "
          "set towards a fixed target, f = 1..3, f+1..2f+1 correct observers and up to f faulty ones voting random removals and competing "
